@@ -62,6 +62,10 @@ fn plan(prop: &str, tier: &str, scale: f64) -> Plan {
             };
             p.w3.push((3, if thorough { 70_000 } else { 34_000 }, 4));
         }
+        "C04" => {
+            // removals that retire a slot, alone and inside a subtree freed by one call
+            p.w3 = if thorough { vec![(4, 280_000, 1), (1, 70_000, 3), (2, 140_000, 3)] } else { vec![(3, 100_000, 1), (1, 36_000, 3), (2, 70_000, 3)] };
+        }
         "C07" => {
             p.w2_n = if thorough { 7 } else { 6 };
             p.w3 = if thorough {
@@ -134,7 +138,7 @@ fn gen_cfg(prop: &str, size: Size) -> GenCfg {
         Size::Large => GenCfg::large(),
     };
     match prop {
-        "C06" | "C07" | "C11" => g.clear = true,
+        "C06" | "C07" | "C11" | "C17" => g.clear = true,
         "C08" => {
             g.writes = true;
             g.clear = true;
